@@ -452,17 +452,23 @@ func AlphaFamilies(tier string) []AlphaSpec {
 		NVals: 2,
 	})
 	out = append(out, AlphaSpec{
-		Name: "DEEP3", // three stacked long paths, keys of very different lengths, leaf and inner children mixed
-		Free: []string{P(12) + "a" + Q(12) + "b" + P(11) + "1", P(12) + "a" + Q(12) + "b" + P(11) + "2", P(12) + "a" + Q(12) + "c", P(12) + "a" + Q(3), P(12) + "b", P(3), "x"},
+		Name:   "DEEP3", // three stacked long paths, keys of very different lengths, leaf and inner children mixed
+		Free:   []string{P(12) + "a" + Q(12) + "b" + P(11) + "1", P(12) + "a" + Q(12) + "b" + P(11) + "2", P(12) + "a" + Q(12) + "c", P(12) + "a" + Q(3), P(12) + "b", P(3), "x"},
 		Probes: []string{P(12) + "a" + Q(12) + "b", P(12) + "a" + Q(12), P(12) + "a" + Q(12) + "b" + P(11) + "3", P(12) + "a" + Q(11) + "x" + "b" + P(11) + "1"},
 	})
 	if tier == "thorough" {
 		out = append(out, AlphaSpec{
-			Name: "LONG12", // twelve keys mixing short keys, paths around the inline limit and branch bytes >= 0x80
-			Free: []string{"", "a", "ab", P(9) + "n", P(10) + "m", P(11) + "z", P(12) + "x", P(12) + "y", P(12) + "\x80", P(12) + "x" + Q(11) + "1", P(12) + "x" + Q(11) + "\xff", "\xff"},
+			Name:   "LONG12", // twelve keys mixing short keys, paths around the inline limit and branch bytes >= 0x80
+			Free:   []string{"", "a", "ab", P(9) + "n", P(10) + "m", P(11) + "z", P(12) + "x", P(12) + "y", P(12) + "\x80", P(12) + "x" + Q(11) + "1", P(12) + "x" + Q(11) + "\xff", "\xff"},
 			Probes: []string{P(12), P(13), P(12) + "x" + Q(5)},
 		})
 	}
+	out = append(out, AlphaSpec{
+		Name:     "SELFSIM", // self-similar keys: a descent restarted from an inner node would match again
+		Free:     []string{"aa1", "aa2", "aaa1", "aaa2", "b", "aaaa1", "a"},
+		Probes:   []string{"aa", "aaa"},
+		Prefixes: []string{"aa", "aaa", "a", "aaaa"},
+	})
 	// key lengths around powers of two (scratch-buffer / fast-path thresholds), as separate leaves and under one long shared path
 	out = append(out, LengthSpecs()...)
 	// fan-out windows
